@@ -51,6 +51,8 @@ def deviations(g):
             add("reward %r at state %d" % (v, i), lambda x, i=i, v=v: x["rewards"].__setitem__(i, v))
         for v in ("Player 3", "", None, "player 1"):
             add("player %r at state %d" % (v, i), lambda x, i=i, v=v: x["players"].__setitem__(i, v))
+        for v in (["Player 1"], {"Player 1": 0}, []):       # unknown players that cannot be hashed
+            add("player %r at state %d" % (v, i), lambda x, i=i, v=v: x["players"].__setitem__(i, copy.deepcopy(v)))
     for k in range(len(g["final_states"])):
         for v in (-1, n, n + 5):
             add("final index %d at position %d" % (v, k), lambda x, k=k, v=v: x["final_states"].__setitem__(k, v))
